@@ -762,7 +762,7 @@ class Gen:
     """Random Go-compatible MiniScope programs: single-name declarations of every kind, nested
     blocks, if/for with init, function literals, imports, heavy shadowing, package-level forward
     references.  NOT generated here (explored by deterministic()): multi-name var/const/:=, range
-    and for-in variables, blank identifiers, local type declarations, labels, XGo literals,
+    and for-in variables, blank identifiers, local type declarations, labels, XGo literals (deterministic controls),
     forward references to functions from function bodies."""
 
     POOL = ["a", "b", "c", "x", "y", "f", "g", "T", "strconv", "sc", "nil", "string", "iota"]
